@@ -7,6 +7,7 @@ import (
 	"github.com/whawty/auth/sasl"
 	"io"
 	"net"
+	"os"
 	"path/filepath"
 	"strings"
 	"testing"
@@ -194,11 +195,38 @@ func TestC11FreeRunning(t *testing.T) {
 	for i := 0; i < clients; i++ {
 		users = append(users, seedUser{Name: fmt.Sprintf("u%d", i), PW: fmt.Sprintf("pw-%d-0", i), Admin: i%2 == 0, PID: uint(1 + i%2)})
 	}
-	for _, mode := range []string{"", "local"} {
-		e, err := newAgentEnv(schedConfig(), users, mode, "", "", "")
+	for _, variant := range []string{"", "local", "local+hooks+relative-basedir"} {
+		mode, hooksDir := variant, ""
+		if strings.Contains(variant, "+hooks") {
+			// a hooks directory with many (trivial) hooks, and a base directory named relative to the working directory: hook rounds run
+			// while requests are being served; whatever the hooks runner does to process-wide state must not reach the requests
+			mode = "local"
+			hd, err := os.MkdirTemp("", "c11hooks-")
+			if err != nil {
+				t.Fatalf("VERIF-INFRA %v", err)
+			}
+			defer os.RemoveAll(hd)
+			os.Chmod(hd, 0o755)
+			for h := 0; h < 60; h++ {
+				os.WriteFile(filepath.Join(hd, fmt.Sprintf("hook-%02d", h)), []byte("#!/bin/sh\necho x >> "+hd+".log\n"), 0o755)
+			}
+			hooksDir, relativeBaseDir = hd, true
+			defer func() {
+				data, _ := os.ReadFile(hd + ".log")
+				os.Remove(hd + ".log")
+				t.Logf("hooks started while the clients were running: %d", len(data)/2)
+				if len(data) > 0 {
+					vlib.Class("free-running:hook-rounds-while-serving,relative-base-directory")
+				}
+			}()
+		}
+		e, err := newAgentEnv(schedConfig(), users, mode, "", "", hooksDir)
+		relativeBaseDir = false
 		if err != nil {
 			t.Fatalf("VERIF-INFRA %v", err)
 		}
+		t.Logf("variant %q: base directory as configured: %s", variant, e.s.dir.BaseDir)
+		mode = variant
 		fe1, fe2 := e.s.GetInterface(), e.s.GetInterface() // two frontends, as SASL + HTTP would have
 		// ... and a real saslauthd socket served by sasl.Server with the agent's callback: every fourth client logs in through it,
 		// its request cut in the middle of the password field, so that requests of different connections are half-read at the same time
